@@ -69,6 +69,10 @@ type World struct {
 	Store    *Store
 	Provider *provider.Provider
 	Handler  http.Handler
+	// PConf / IssuerOpt: the configuration object and the issuer option value the provider was constructed with (an integrator may
+	// legally reuse either for a second provider)
+	PConf     *provider.Config
+	IssuerOpt func(bool) (provider.IssuerFromRequest, error)
 	// OccBase: per storage operation, the number of calls made by earlier requests of a history (fault occurrences of
 	// the judged request are reported relative to it)
 	OccBase map[string]int
@@ -186,7 +190,7 @@ func NewWithStore(cfg Config, st *Store) (*World, error) {
 	if err != nil {
 		return nil, err
 	}
-	return &World{Cfg: cfg, Store: st, Provider: p, Handler: p.HttpHandler()}, nil
+	return &World{Cfg: cfg, Store: st, Provider: p, Handler: p.HttpHandler(), PConf: pc, IssuerOpt: issuer}, nil
 }
 
 // Reply is the observation of one ServeHTTP call.
@@ -417,4 +421,68 @@ func Shape(req *http.Request, kind string) *http.Request {
 		panic("world.Shape: " + kind)
 	}
 	return req
+}
+
+// ---- sibling providers ---------------------------------------------------------------------------------------------------------
+// Siblings: other provider instances that are alive in the same process as the judged one. Nothing of them may show in the judged
+// provider's behaviour (configuration, endpoints, templates, signers are per instance).
+
+var SiblingKinds = []string{"", "custom-endpoints-after", "custom-endpoints-before", "insecure-host-path-after", "other-algorithms-after", "same-config-after", "shared-config-objects-after"}
+
+// WithSibling constructs a sibling of the given kind ("-before": before build() runs, "-after": after it) and returns build()'s world.
+func WithSibling(kind string, build func() (*World, error)) (*World, error) {
+	mk := func() {
+		var c Config
+		switch {
+		case kind == "":
+			return
+		case len(kind) > 16 && kind[:16] == "custom-endpoints":
+			c = Config{SSO: &EP{Path: "/sibling/sso"}, SLO: &EP{Path: "/sibling/slo"}, Attribute: &EP{Path: "/sibling/attr"}, Callback: &EP{Path: "/sibling/cb"},
+				Certificate: &EP{Path: "/sibling/cert"}, Metadata: &EP{Path: "/sibling/md", URL: "https://sibling.example/md"}, StaticIssuer: "https://sibling.example/idp"}
+		case kind == "insecure-host-path-after":
+			c = Config{IssuerMode: "host", HostPath: "sibling", Insecure: true, WantSigned: "true"}
+		case kind == "other-algorithms-after":
+			c = Config{SigAlg: RSASHA1, MetaSigAlg: RSASHA512, TimeFormat: "2006-01-02T15:04:05Z", ErrorURL: "https://sibling.example/error"}
+		case kind == "same-config-after":
+			c = Config{}
+		default:
+			panic("world.WithSibling: " + kind)
+		}
+		sw, err := New(c)
+		if err != nil {
+			panic(err)
+		}
+		// the sibling is used once, so that anything built lazily on first use exists
+		sw.Do(NewRequest("GET", "", sw.Cfg.MetadataPath(), nil, "", nil))
+	}
+	before := len(kind) > 7 && kind[len(kind)-7:] == "-before"
+	if before {
+		mk()
+	}
+	w, err := build()
+	if kind == "shared-config-objects-after" && err == nil {
+		// a second provider built from a VALUE COPY of the first one's configuration (the nested configuration objects are shared
+		// by pointer) and from the SAME issuer option value, with the top-level scalars changed: signing no longer / now required,
+		// another response algorithm, insecure mode
+		idp := *w.PConf.IDPConfig
+		if idp.WantAuthRequestsSigned == "" {
+			idp.WantAuthRequestsSigned = "true"
+		} else {
+			idp.WantAuthRequestsSigned = ""
+		}
+		idp.SignatureAlgorithm = RSASHA1
+		pc := *w.PConf
+		pc.IDPConfig = &idp
+		sp, err2 := provider.NewProvider(NewStore(), w.IssuerOpt, &pc, provider.WithAllowInsecure())
+		if err2 != nil {
+			panic(err2)
+		}
+		rec := httptest.NewRecorder()
+		sp.HttpHandler().ServeHTTP(rec, NewRequest("GET", "", w.Cfg.MetadataPath(), nil, "", nil))
+		return w, err
+	}
+	if !before {
+		mk()
+	}
+	return w, err
 }
